@@ -21,7 +21,17 @@ fn main() {
     let seed: u64 = std::env::var("VERIF_SEED").ok().and_then(|s| s.parse().ok()).unwrap_or(1);
     let workers: usize = arg_val(&args, "--workers").and_then(|s| s.parse().ok()).unwrap_or_else(|| std::thread::available_parallelism().map(|n| n.get()).unwrap_or(4));
     // library panics are caught by monitors; keep stderr quiet
-    std::panic::set_hook(Box::new(|_| {}));
+    // library panics are caught and reported by the monitors; the default hook would print every one.
+    // A panic outside a guard is a harness error: say so on the way out (exit code 101 otherwise).
+    std::panic::set_hook(Box::new(|info| {
+        if std::env::var("VERIF_DEBUG").is_ok() || std::thread::current().name() == Some("main") {
+            eprintln!("HARNESS-ERROR: panic in {:?}: {}", std::thread::current().name(), info);
+        }
+        if std::thread::current().name() == Some("main") {
+            println!("HARNESS-ERROR: the harness itself panicked");
+            std::process::exit(2);
+        }
+    }));
     match args[1].as_str() {
         "check" => {
             let prop = args.get(2).cloned().unwrap_or_else(|| usage());
